@@ -140,7 +140,7 @@ PROPS = {
     },
     "C07": {
         "title": "Compute tables are transparent: cached answers equal recomputed answers",
-        "rules": [on_program(r) for r in rules_ct.RULES] + [rules_ftype.rule_ct_slots, callers_for("C07"), on_program(rules_layer.rule_cache_before_rewrite)],
+        "rules": [on_program(r) for r in rules_ct.RULES] + [rules_ftype.rule_ct_slots, callers_for("C07"), on_program(rules_layer.rule_cache_before_rewrite), on_program(rules_sibling.rule_counter_width)],
         "explanation": STRUCTURAL + ". C07: a handle is recycled only at cache count zero (including the tail collapse of the handle array); a hit is returned only after the dead-entry scan said alive; "
                        "every NODE item is cache-counted on add and un-counted on delete (same sections), and consulted by the dead/stale scans; reordering clears the tables first.",
         "assumptions": ["that the key contains every input the result depends on is not decided (non-interference)", "equality of cached and recomputed answers as such is not decided"],
